@@ -18,7 +18,7 @@
    Part 3: the same table code with the bump moved below the rotation (bufs_switch_entered: the step of the buffer that
    is ENTERED is ended instead) does not keep the invariant, and one `u` then undoes two command lines. *)
 From Coq Require Import List ZArith NArith Bool Lia Arith Permutation.
-From NV Require Import GenConsts BufsDefs BufsProps.
+From NV Require Import GenConsts BufsDefs BufsProps BufsReach.
 Import ListNotations.
 
 Lemma Forall_set_nth {A} (P : A -> Prop) (l : list A) : forall i x, Forall P l -> P x -> Forall P (set_nth l i x).
@@ -248,6 +248,14 @@ Proof.
   induction cs as [|c r IH]; intros s H; cbn [run]; auto. destruct (xquit s); auto. apply IH, closed_inv, steps_command, H.
 Qed.
 
+Theorem steps_run_lines : forall ls s, steps_inv s -> steps_inv (run_lines Lo s ls).
+Proof.
+  induction ls as [|l r IH]; intros s H; cbn [run_lines]; auto. destruct (xquit s); auto. apply IH, closed_inv, steps_line, H.
+Qed.
+(* every moment of every session: after the command lines ls, in the middle of the next line (after its commands cs) *)
+Theorem steps_reachable files argv ls cs : steps_inv (fst (exec_all Lo (run_lines Lo (fst (ex_init Lo files argv)) ls) cs)).
+Proof. apply steps_exec_all, steps_run_lines, steps_init. Qed.
+
 (* the reading of the invariant: whatever was executed, a buffer in the background has no open step *)
 Theorem background_closed s j b : steps_inv s -> (1 <= j)%nat -> nth_error (bufs s) j = Some (Some b) -> closed (b_lb b).
 Proof.
@@ -421,4 +429,59 @@ Theorem delete_then_one_undo (s : st clb) b x0 news : steps_inv clb_ok clb_close
 Proof.
   intros H E. pose proof (delete_enters_closed clb_ops clb_ok clb_closed clb_step_laws s b H E) as C.
   destruct (closed_changes_one_undo (b_lb b) x0 news C) as (T & U & _ & _ & M & _). auto.
+Qed.
+
+(* every moment of every session of the concrete model: a background buffer takes changes + one undo as above *)
+Theorem reachable_one_undo files argv ls cs j (b : buf clb) (x0 : content) (news : list content) :
+  let s := fst (exec_all clb_ops (run_lines clb_ops (fst (ex_init clb_ops files argv)) ls) cs) in
+  (1 <= j)%nat -> nth_error (bufs s) j = Some (Some b) ->
+  clb_closed (b_lb b) /\
+  (let l' := clb_undo (edits (x0 :: news) (b_lb b)) in
+   c_text l' = c_text (b_lb b) /\ c_hu l' = c_hu (b_lb b) /\ snd (clb_modified l') = snd (clb_modified (b_lb b))).
+Proof.
+  cbn zeta. intros Hj E. pose proof (steps_reachable clb_ops clb_ok clb_closed clb_step_laws files argv ls cs) as H.
+  split; [exact (background_closed clb_ok clb_closed _ j b H Hj E)|]. exact (background_one_undo _ j b x0 news H Hj E).
+Qed.
+
+(* ------------------------------------------------------------------------------------------- *)
+(* Part 3: the bump moved below the rotation -- "a switch starts a new step for the buffer that is entered" instead of
+   "the command ends for the buffer that is left".  As long as a buffer is re-entered through this function the two
+   read the same; but the buffer that is left keeps an OPEN step in the background, and bufs_shift enters it as it is. *)
+Definition bufs_switch_entered {L Op Out : Type} (Lo : lops L Op Out) (s : st L) (idx : nat) : st L :=
+  let s1 := bufs_save s in
+  let s2 := set_bufs s1 (switch (bufs s1) idx) in
+  bufs_load (set_bufs s2 (upd0 (bump Lo) (bufs s2))).
+
+(* two buffers; the current one has just been changed (its step is open, which is fine for the current buffer) *)
+Definition sw_l0 : clb := clb_edit [[88%N]] (clb_saved true (clb_edit [[97%N]] clb_make)).
+Definition sw_st : st clb :=
+  mkst (Some (mkbuf 1 [97%N] sw_l0 view0 1) :: Some (mkbuf 2 [98%N] (clb_saved true clb_make) view0 1) :: repeat None 14)
+       2 view0 [] [] 0 false false [97%N].
+(* `b !` in the state st, then a change and ONE undo: (text, dirty flag) of the buffer that became current *)
+Definition del_change_undo (s : st clb) : option (content * bool) :=
+  match slot0 (fst (ec_buffer_del clb_ops s)) with
+  | Some b => let l' := clb_undo (clb_edit [[89%N]] (b_lb b)) in Some (c_text l', snd (clb_modified l'))
+  | None => None
+  end.
+
+Theorem switch_entered_breaks :
+  steps_inv clb_ok clb_closed sw_st /\
+  steps_inv clb_ok clb_closed (bufs_switch clb_ops sw_st 1) /\
+  ~ steps_inv clb_ok clb_closed (bufs_switch_entered clb_ops sw_st 1) /\
+  (* with the real function the first change is kept and the buffer is still modified; with the other one both
+     changes are gone after the one undo and the buffer counts as unmodified *)
+  del_change_undo (bufs_switch clb_ops sw_st 1) = Some ([[88%N]], true) /\
+  del_change_undo (bufs_switch_entered clb_ops sw_st 1) = Some ([[97%N]], false).
+Proof.
+  assert (Ok0 : clb_ok sw_l0). { split; [vm_compute; lia|]. cbn. repeat constructor; cbn; lia. }
+  assert (Cl1 : clb_closed (clb_saved true clb_make)). { split; [vm_compute; lia|]. cbn. constructor. }
+  assert (S0 : steps_inv clb_ok clb_closed sw_st).
+  { unfold steps_inv, sw_st. cbn [bufs lst_inv slot_sat b_lb]. split; [exact Ok0|]. constructor; [exact Cl1|].
+    apply Forall_forall. intros x Hx. apply repeat_spec in Hx. subst. exact I. }
+  split; [exact S0|]. split; [apply (inv_switch clb_ops clb_ok clb_closed clb_step_laws), S0|].
+  split.
+  { intro H. pose proof (background_closed clb_ok clb_closed _ 1%nat (mkbuf 1 [97%N] sw_l0 view0 1) H (Nat.le_refl 1)) as C.
+    assert (E : nth_error (bufs (bufs_switch_entered clb_ops sw_st 1)) 1 = Some (Some (mkbuf 1 [97%N] sw_l0 view0 1))) by (vm_compute; reflexivity).
+    specialize (C E). destruct C as [_ C]. cbn in C. inversion C as [|? ? C1 C2]; subst. cbn in C1. lia. }
+  split; vm_compute; reflexivity.
 Qed.
